@@ -29,8 +29,24 @@ def rt_parse(kind, calls):
     return [{"op": "parse", "kind": kind, "src": "image"}]
 
 
-def build_session(sid, kind, calls, lens=(0,), fills=(0,), rt=True, extra=()):
-    ops = [reset(sid)] + calls_to_ops(kind, calls) + [{"op": "calc_size"}]
+def observe_midway(g, ops, p=0.3):
+    """with probability p, observe the builder (size / write / padding) after a proper prefix of its calls:
+    the SAME instance is then configured further (the executor replays the observation on it)"""
+    r = g.r
+    ncalls = sum(1 for o in ops if o["op"] == "call")
+    if ncalls > 1 and r.random() < p:
+        cut = 1 + r.randrange(1, ncalls)           # ops[0] is the reset
+        obs = r.choice([[{"op": "calc_size"}], [{"op": "write_into", "rel": 0, "len": 64, "fill": 1}],
+                        [{"op": "calc_size"}, {"op": "get_padding"}, {"op": "write_into", "rel": 0, "len": 64, "fill": 0}]])
+        ops = ops[:cut] + obs + ops[cut:]
+    return ops
+
+
+def build_session(sid, kind, calls, lens=(0,), fills=(0,), rt=True, extra=(), g=None):
+    ops = [reset(sid)] + calls_to_ops(kind, calls)
+    if g is not None:
+        ops = observe_midway(g, ops)
+    ops += [{"op": "calc_size"}]
     for rel in lens:
         for f in fills:
             ops.append({"op": "write_into", "rel": rel, "len": 64, "fill": f})
@@ -48,7 +64,7 @@ def roundtrip(g, n, kinds, sidp, hist=False, pad_sweep=False):
     for i in range(n):
         kind = g.r.choice(kinds)
         k, calls = g.builder(kind, hist=hist)
-        yield build_session(f"{sidp}/{i}", k, calls, lens=(g.r.choice([0, 0, 1, 7]),), rt=True)
+        yield build_session(f"{sidp}/{i}", k, calls, lens=(g.r.choice([0, 0, 1, 7]),), rt=True, g=g)
 
 
 def c02(g, tier):
@@ -61,11 +77,18 @@ def c02(g, tier):
                 {"c": "add_rb", "v": [{"c": "new", "ssrc": g.u32()}, {"c": "cumulative", "v": cl}, {"c": "fraction", "v": fl}]}
                 for _ in range(31)] + [{"c": "padding", "v": g.r.choice([0, 4, 252])}]
             yield build_session(f"C02/31/{kind}/{i}", kind, calls)
+    # every number of report blocks, every block distinguishable (position within a longer list)
+    for kind in ("sr", "rr"):
+        for nb in (range(0, 32, 3) if tier == "quick" else range(32)):
+            calls = [{"c": "new", "ssrc": g.u32()}] + [
+                {"c": "add_rb", "v": [{"c": "new", "ssrc": [j, nb]}, {"c": "jitter", "v": [nb, j]}, {"c": "fraction", "v": j}]} for j in range(nb)]
+            yield build_session(f"C02/nblocks/{kind}/{nb}", kind, calls + [{"c": "padding", "v": g.r.choice([0, 24, 48, 100])}])
 
 
 def c03(g, tier):
     n = 1500 if tier == "quick" else 30000
     yield from roundtrip(g, n, ["sdes"], "C03/rand", hist=True)
+    yield from c03_extra(g, tier)
     # deterministic sweep: last item value length x padding, following chunk with leading-zero SSRC
     step = 1 if tier == "thorough" else 3
     i = 0
@@ -80,6 +103,11 @@ def c03(g, tier):
                 calls = [{"c": "new"}, {"c": "add_chunk", "v": c1}, {"c": "add_chunk", "v": c2}, {"c": "padding", "v": pad}]
                 yield build_session(f"C03/sweep/{vlen}/{pad}/{i}", "sdes", calls)
                 i += 1
+
+
+def c03_extra(g, tier):
+    yield from midsize_sessions(g, "C03/mid", ["sdes"])
+    yield from item_type_sweep(g, "C03/types")
 
 
 def c04(g, tier):
@@ -105,13 +133,15 @@ def c04(g, tier):
                              {"c": "subtype", "v": st}, {"c": "data", "v": g.bytes_(pl)}, {"c": "padding", "v": pad}]
                     yield build_session(f"C04/app/{st}/{nlen}/{pl}/{pad}", "app", calls)
     yield from roundtrip(g, 300 if tier == "quick" else 10000, ["bye", "app"], "C04/rand", hist=True)
+    yield from midsize_sessions(g, "C04/mid", ["sizes"])
 
 
 def c05(g, tier):
     n = 2500 if tier == "quick" else 50000
     for i in range(n):
         k, calls = g.fb(hist=True, big=(g.r.random() < (0.01 if tier == "quick" else 0.03)))
-        yield build_session(f"C05/rand/{i}", k, calls)
+        yield build_session(f"C05/rand/{i}", k, calls, g=g)
+    yield from midsize_sessions(g, "C05/mid", ["nack", "fir"])
     # RPSI: every length x ignored bits
     maxlen = 20 if tier == "quick" else 300
     for n_ in range(0, maxlen + 1):
@@ -133,7 +163,7 @@ def any_builder(g, hist=False, bad_p=0.0, small=False, compound_p=0.1):
         if r.random() < bad_p:
             bad = r.choice(["member", "padding"])
         return g.compound(bad=bad)
-    return g.builder(hist=hist, bad=(r.random() < bad_p), small=small)
+    return g.builder(hist=(hist or r.random() < 0.3), bad=(r.random() < bad_p), small=small)
 
 
 def wrap_ops(g, kind):
@@ -150,12 +180,13 @@ def c06(g, tier):
     n = 2500 if tier == "quick" else 40000
     for i in range(n):
         k, calls = any_builder(g, hist=False, bad_p=0.15, small=(g.r.random() < 0.6))
-        ops = [reset(f"C06/rand/{i}")] + calls_to_ops(k, calls) + wrap_ops(g, k) + [{"op": "calc_size"}]
+        ops = observe_midway(g, [reset(f"C06/rand/{i}")] + calls_to_ops(k, calls)) + wrap_ops(g, k) + [{"op": "calc_size"}]
         rels = [-4, -1, 0, 1, 7] if g.r.random() < 0.7 else list(range(-12, 9))
         rels += [-1000000]   # a zero-length buffer
         for rel in rels:
             ops.append({"op": "write_into", "rel": rel, "len": g.r.choice([0, 3, 64]), "fill": 0})
         yield ops
+    yield from midsize_sessions(g, "C06/mid", ["sdes", "nack", "fir", "firbig", "sizes"])
     # standalone SDES item / chunk writers
     for i in range(300 if tier == "quick" else 5000):
         bad = g.r.random() < 0.1
@@ -180,14 +211,19 @@ def c07(g, tier):
         big = k in ("tfb", "pfb") and g.r.random() < 0.03
         if big:
             k, calls = g.fb(big=True)
-        yield build_session(f"C07/rand/{i}", k, calls, lens=(g.r.choice([0, 0, 3]),), rt=False)
+        yield build_session(f"C07/rand/{i}", k, calls, lens=(g.r.choice([0, 0, 3]),), rt=False, g=g)
+    yield from c07_extra(g, tier)
+
+
+def c07_extra(g, tier):
+    yield from midsize_sessions(g, "C07/mid", ["sdes", "nack", "fir", "sizes"])
 
 
 def c17(g, tier):
     n = 2000 if tier == "quick" else 30000
     for i in range(n):
         k, calls = any_builder(g, hist=False, bad_p=0.15, small=(g.r.random() < 0.6))
-        ops = [reset(f"C17/rand/{i}")] + calls_to_ops(k, calls) + [{"op": "calc_size"}]
+        ops = observe_midway(g, [reset(f"C17/rand/{i}")] + calls_to_ops(k, calls)) + [{"op": "calc_size"}]
         rels = [-1, 0, 1, 9] if g.r.random() < 0.7 else list(range(-3, 9))
         rels += [-1000000]
         for rel in rels:
@@ -210,23 +246,23 @@ def c16(g, tier):
     n = 3000 if tier == "quick" else 50000
     for i in range(n):
         k, calls = any_builder(g, hist=False, bad_p=0.5, small=(g.r.random() < 0.7), compound_p=0.12)
-        yield build_session(f"C16/rand/{i}", k, calls, lens=(0,), rt=False)
+        yield build_session(f"C16/rand/{i}", k, calls, lens=(0,), rt=False, g=g)
     # limits from both sides
     i = 0
     for kind in ("sr", "rr"):
-        for nb in (30, 31, 32, 33):
+        for nb in (30, 31, 32, 33, 255, 256, 257, 287, 288):
             _, calls = g.report(kind, nblocks=nb)
             yield build_session(f"C16/blocks/{kind}/{nb}", kind, calls, rt=False)
         for hi in (254, 255, 256, 257, 65535):
             calls = [{"c": "new", "ssrc": g.u32()}, {"c": "add_rb", "v": [{"c": "new", "ssrc": g.u32()}, {"c": "cumulative", "v": [hi, g.r.choice([0, 65535])]}]}]
             yield build_session(f"C16/cumulative/{kind}/{hi}", kind, calls, rt=False)
-    for ns in (30, 31, 32, 33):
+    for ns in (30, 31, 32, 33, 255, 256, 257, 260, 287, 288, 512, 543):
         _, calls = g.bye(nsrc=ns, rlen=3, pad=0)
         yield build_session(f"C16/sources/{ns}", "bye", calls, rt=False)
     for rl in (254, 255, 256, 257):
         _, calls = g.bye(nsrc=1, rlen=rl, pad=0)
         yield build_session(f"C16/reason/{rl}", "bye", calls, rt=False)
-    for nc in (30, 31, 32, 33):
+    for nc in (30, 31, 32, 33, 255, 256, 257, 287, 288):
         _, calls = g.sdes(nchunks=nc, small=True)
         yield build_session(f"C16/chunks/{nc}", "sdes", calls, rt=False)
     for vl in (254, 255, 256, 257):
@@ -263,6 +299,7 @@ def c16(g, tier):
     for kind in ("tfb", "pfb"):
         for f in ("nack", "pli", "sli", "rpsi", "fir"):
             yield build_session(f"C16/fbkind/{kind}/{f}", kind, [{"c": "new", "fci": g.fci(f), "owned": g.r.random() < 0.5}], rt=False)
+    yield from midsize_sessions(g, "C16/mid", ["firbig"])
     # total size above 65536 words
     for nbytes in (262140 - 12, 262144 - 12, 262148 - 12):
         yield build_session(f"C16/big/app/{nbytes}", "app", [{"c": "new", "ssrc": [0, 1], "name": [65]}, {"c": "data", "v": [], "big": {"rep": 7, "n": nbytes}}], rt=False)
@@ -296,6 +333,72 @@ def c20(g, tier):
         ops += [{"op": "calc_size"}, {"op": "get_padding"}, {"op": "write_into", "rel": r.choice([0, 0, 2, -1]), "len": 64, "fill": 0}]
         yield ops
 
+
+
+def midsize_sessions(g, sidp, what):
+    """structures larger than a handful of elements but below the maxima, where narrow counters wrap"""
+    r = g.r
+    if "sdes" in what:
+        for k in (254, 255, 256, 257, 300):        # items in one chunk
+            ch = {"ssrc": g.u32(), "adds": [{"owned": False, "item": [{"c": "new", "type": 1 + i % 7, "value": [0x41 + i % 26] * (i % 3)}]} for i in range(k)]}
+            yield build_session(f"{sidp}/items/{k}", "sdes", [{"c": "new"}, {"c": "add_chunk", "v": ch}], rt=True)
+        for k in (8, 9, 12, 40):                   # items of maximal length in one chunk
+            ch = {"ssrc": g.u32(), "adds": [{"owned": False, "item": [{"c": "new", "type": 1 + i % 7, "value": [0x61 + i % 26] * 255}]} for i in range(k)]}
+            ch2 = {"ssrc": g.u32(), "adds": []}
+            yield build_session(f"{sidp}/bigitems/{k}", "sdes", [{"c": "new"}, {"c": "add_chunk", "v": ch2}, {"c": "add_chunk", "v": ch}], rt=True)
+        # one chunk above 65535 bytes
+        ch = {"ssrc": [1, 2], "adds": [{"owned": False, "item": [{"c": "new", "type": 2, "value": [0x41 + i % 26] * 255}]} for i in range(260)]}
+        yield build_session(f"{sidp}/chunk64k", "sdes", [{"c": "new"}, {"c": "add_chunk", "v": ch}], rt=True)
+    if "nack" in what:
+        for k in (255, 256, 257, 300):             # (PID, BLP) words
+            adds = [(1000 + 20 * i) % 65536 for i in range(k)]
+            calls = [{"c": "new", "fci": {"f": "nack", "adds": adds}, "owned": False}, {"c": "sender", "v": g.u32()}]
+            yield build_session(f"{sidp}/nackwords/{k}", "tfb", calls, rt=True)
+        calls = [{"c": "new", "fci": {"f": "nack", "adds": [(60000 + i) % 65536 for i in range(4400)]}, "owned": True}]
+        yield build_session(f"{sidp}/nackrun/4400", "tfb", calls, rt=True)
+    if "fir" in what:
+        for k in (255, 256, 257, 300):
+            adds = [[[i // 7, (i * 37) % 65536], i % 256] for i in range(k)]
+            yield build_session(f"{sidp}/fir/{k}", "pfb", [{"c": "new", "fci": {"f": "fir", "adds": adds}, "owned": False}], rt=True)
+        for k in (255, 256, 300):
+            adds = [[i % 8192, (i * 5) % 8192, i % 64] for i in range(k)]
+            yield build_session(f"{sidp}/sli/{k}", "pfb", [{"c": "new", "fci": {"f": "sli", "adds": adds}, "owned": True}], rt=True)
+    if "firbig" in what:
+        for k in (8191, 8192, 32766, 32767):       # FIR entries: 16-bit arithmetic, and both sides of the 65536-word limit
+            adds = [[[i // 65536 + 1, i % 65536], i % 256] for i in range(k)]
+            yield build_session(f"{sidp}/firbig/{k}", "pfb", [{"c": "new", "fci": {"f": "fir", "adds": adds}, "owned": False}], rt=False)
+    if "sizes" in what:
+        # total sizes at multiples of 256 words and neighbours (the two bytes of the length field)
+        for tot in (1020, 1024, 1028, 2048, 4096, 65536, 65540, 131072):
+            yield build_session(f"{sidp}/appsize/{tot}", "app", [{"c": "new", "ssrc": g.u32(), "name": [65, 66]},
+                                {"c": "data", "v": [], "big": {"rep": 3, "n": tot - 12}}], rt=True)
+            yield build_session(f"{sidp}/unksize/{tot}", "unk", [{"c": "new", "type": 99, "data": [], "big": {"rep": 4, "n": tot - 8}},
+                                {"c": "padding", "v": 4}], rt=True)
+
+
+def item_type_sweep(g, sidp):
+    """every SDES item type with an empty, a one-byte and a three-byte value: parsed from bytes and built"""
+    for t in range(1, 256):
+        if t == 8:
+            continue
+        for v in ([], [0x41], [0x41, 0x42, 0x43]):
+            body = [0, 0, 0, 9, t, len(v)] + v + [0]
+            body += [0] * (-len(body) % 4)
+            b = hdr(2, False, 1, 202, (4 + len(body)) // 4 - 1) + body
+            yield [reset(f"{sidp}/parse/{t}/{len(v)}"), {"op": "parse", "kind": "sdes", "b": b}]
+        ch = {"ssrc": g.u32(), "adds": [{"owned": False, "item": [{"c": "new", "type": t, "value": []}]},
+                                        {"owned": True, "item": [{"c": "new", "type": t, "value": [0x61, 0x62]}]}]}
+        yield build_session(f"{sidp}/build/{t}", "sdes", [{"c": "new"}, {"c": "add_chunk", "v": ch}], rt=True)
+
+
+def concat_sessions(g, n, sidp):
+    """two or three well-formed packets back to back handed to the single-packet parsers (must be TooLarge)"""
+    r = g.r
+    for i in range(n):
+        k, calls = g.compound(n=r.randrange(2, 4))
+        calls = [c for c in calls if c["c"] != "probe"]
+        yield [reset(f"{sidp}/{i}")] + calls_to_ops(k, calls) + [{"op": "calc_size"}, {"op": "write_into", "rel": 0, "len": 64, "fill": 0},
+                                                                {"op": "parse_all", "src": "image"}]
 
 # ------------------------------------------------------------------ parsing C01 C08 C09 C12 C18
 def hdr(v, p, cnt, pt, words):
@@ -486,6 +589,11 @@ def fci_sessions(g, n, sidp):
         fci = g.bytes_(4 * nw)
         if fmt == 3 and kind == "pfb" and fci:
             fci[0] = r.choice([0, 8, 12, 16, 8 * (len(fci) - 2), 8 * (len(fci) - 2) + 1, 255, r.randrange(256)]) % 256
+        if r.random() < 0.08:
+            # application layer feedback (FMT 15) and other bodies starting with a well-known identifier
+            fmt = r.choice([15, 15, fmt])
+            ident = r.choice([[0x52, 0x45, 0x4d, 0x42], [0x52, 0x45, 0x4d, 0x42], [0x41, 0x46, 0x42, 0x20], [0x54, 0x4d, 0x4d, 0x42]])
+            fci = ident + g.bytes_(4 * r.choice([0, 0, 1, 2, 3]))
         pad = 0 if r.random() < 0.7 else r.choice([4, 8, 12])
         total = 12 + len(fci) + pad
         b = hdr(2, pad > 0, fmt, PT[kind], total // 4 - 1) + g.u32bytes() + g.u32bytes() + fci + ([0] * (pad - 1) + [pad] if pad else [])
@@ -536,6 +644,13 @@ def big_inputs(g, sidp, count):
     yield [reset(f"{sidp}/largetiles"), {"op": "cparse", "b": b}] + [{"op": "cnext"}] * 7
     b = hdr(2, False, 0, 204, 0xffff) + [0] * (262144 - 4)
     yield [reset(f"{sidp}/maxlen"), {"op": "parse", "kind": "app", "b": b}, {"op": "parse", "kind": "packet", "b": b[:70000]}]
+    # a short packet followed by exactly 65536 more words: the real length aliases the header length modulo 2^16 words
+    for kind, first in (("app", [0x80, 204, 0, 2, 1, 2, 3, 4, 65, 66, 67, 68]), ("bye", [0x81, 203, 0, 1, 1, 2, 3, 4]),
+                        ("rr", [0x80, 201, 0, 1, 1, 2, 3, 4])):
+        long = first + [0] * 262144
+        tl = tiles_of_partial(long)
+        yield [reset(f"{sidp}/alias/{kind}"), {"op": "parse", "kind": kind, "b": long}, {"op": "parse", "kind": "packet", "b": long},
+               {"op": "parse", "kind": "unknown", "b": long}, {"op": "cparse", "b": long, "hint": {"ok": tl[1], "tiles": tl[0]}}, {"op": "cnext"}]
     # a tile with the maximal length field (0xffff) inside a compound, first and non-first
     yield [reset(f"{sidp}/maxtile"), {"op": "cparse", "b": b}, {"op": "cnext", "tile": [0, 262144]}, {"op": "cnext"},
            {"op": "cparse", "b": [0x80, 203, 0, 0] + b + [0x81, 203, 0, 1, 0, 0, 0, 7]},
@@ -552,12 +667,17 @@ def c01(g, tier):
     yield from fci_sessions(g, 600 if q else 20000, "C01/fci")
     yield from nack_iter_sessions(g, 100 if q else 3000, "C01/nit")
     yield from big_inputs(g, "C01/big", 1 if q else 3)
+    yield from midsize_sessions(g, "C01/mid", ["sdes", "nack", "fir"])
+    yield from item_type_sweep(g, "C01/types")
+    yield from concat_sessions(g, 100 if q else 3000, "C01/concat")
 
 
 def c08(g, tier):
     q = tier == "quick"
     yield from header_sweep(g, 4000 if q else 100000, "C08/hdr")
     yield from mutated_images(g, 800 if q else 20000, "C08/mut")
+    yield from concat_sessions(g, 300 if q else 8000, "C08/concat")
+    yield from big_inputs(g, "C08/big", 0)
 
 
 def fixed_layout_bodies(g, n, sidp):
@@ -572,6 +692,8 @@ def fixed_layout_bodies(g, n, sidp):
         pad = 0 if r.random() < 0.6 else r.choice([4, 8, 12])
         if kind in ("sr", "rr"):
             body = MINLEN[kind] - 4 + 24 * cnt
+            if r.random() < 0.35:      # RFC 3550 6.4.1 / 6.4.2: profile-specific extensions follow the report blocks
+                body += 4 * r.choice([1, 2, 5, 6, 7, 12, 13, 30])
         elif kind == "bye":
             body = 4 * cnt + (0 if r.random() < 0.4 else 4 * r.randrange(1, 5))
         elif kind == "unknown":
@@ -609,6 +731,8 @@ def c10(g, tier):
             ops.append({"op": "parse", "kind": "sdes", "src": "image",
                         "medits": [[r.randrange(1 << 20), r.choice([0, 0, 1, 2, 3, 4, 8, 255, r.randrange(256)])] for _ in range(r.randrange(1, 3))]})
         yield ops
+    yield from midsize_sessions(g, "C10/mid", ["sdes"])
+    yield from item_type_sweep(g, "C10/types")
     for i in range(3000 if q else 100000):
         nw = r.randrange(0, 7)
         body = [r.choice([0, 0, 0, 1, 2, 3, 8, 65, r.randrange(256)]) for _ in range(4 * nw)]
@@ -633,6 +757,7 @@ def c12(g, tier):
     for i in range(500 if q else 10000):
         k, calls = g.builder(small=True)
         yield build_session(f"C12/img/{i}", k, calls, rt=False, extra=[{"op": "parse_all", "src": "image"}])
+    yield from concat_sessions(g, 300 if q else 8000, "C12/concat")
 
 
 def c13(g, tier):
@@ -658,9 +783,9 @@ def c14(g, tier):
         elif x < 0.35:
             bad = "padding"
         k, calls = g.compound(bad=bad)
-        ops = [reset(f"C14/{i}")] + calls_to_ops(k, calls) + [{"op": "calc_size"}, {"op": "get_padding"}, {"op": "write_into", "rel": r.choice([0, 0, 5]), "len": 64, "fill": 0}]
+        ops = observe_midway(g, [reset(f"C14/{i}")] + calls_to_ops(k, calls), 0.4) + [{"op": "calc_size"}, {"op": "get_padding"}, {"op": "write_into", "rel": r.choice([0, 0, 5]), "len": 64, "fill": 0}]
         ops.append({"op": "cparse", "src": "image"})
-        ops += [{"op": "cnext"} for _ in range(len(calls) + 2 + 3 * sum(1 for c in calls[1:] if c["v"]["kind"] == "compound"))]
+        ops += [{"op": "cnext"} for _ in range(len(calls) + 2 + 3 * sum(1 for c in calls[1:] if c.get("v", {}).get("kind") == "compound"))]
         yield ops
 
 
@@ -668,6 +793,7 @@ def c15(g, tier):
     q = tier == "quick"
     yield from fci_sessions(g, 3000 if q else 80000, "C15/fci")
     yield from nack_iter_sessions(g, 400 if q else 10000, "C15/nit")
+    yield from midsize_sessions(g, "C15/mid", ["nack", "fir"])
     # single-word sweeps
     r = g.r
     pids = [0, 1, 0x7fff, 0xffee, 0xffef, 0xfff0, 0xffff]
@@ -713,6 +839,8 @@ def c18(g, tier):
     yield from mutated_images(g, 1000 if q else 30000, "C18/mut")
     yield from compound_bytes_sessions(g, 800 if q else 20000, "C18/cb")
     yield from noise(g, 400 if q else 10000, "C18/noise")
+    yield from concat_sessions(g, 200 if q else 5000, "C18/concat")
+    yield from big_inputs(g, "C18/big", 0)
 
 
 def c19(g, tier):
@@ -724,10 +852,10 @@ def c19(g, tier):
         ops = [reset(f"C19/write_header/{fam}")]
         for p in (0, 1, 4, 255):
             for cnt in range(32):
-                for hlen in ([4, 8, 64] if q else list(range(4, 68, 4)) + [262144]):
+                for hlen in ([4, 8, 64, 1020, 1024, 1028, 65536] if q else list(range(4, 68, 4)) + [1020, 1024, 1028, 2048, 65536, 65540, 131072, 262144]):
                     if hlen > 1000 and cnt % 8:
                         continue
-                    ops.append({"op": "write_header", "fam": fam, "p": p, "cnt": cnt, "hlen": hlen, "len": hlen + (4 if hlen < 1000 else 0), "fill": r.choice([0, 1])})
+                    ops.append({"op": "write_header", "fam": fam, "p": p, "cnt": cnt, "hlen": hlen, "len": hlen + (4 if hlen < 100 else 0), "fill": r.choice([0, 1])})
         yield ops
     ops = [reset("C19/write_padding")]
     for p in range(256):
